@@ -65,6 +65,7 @@ type live struct {
 	FakeBID types.BlockID
 	Votes   []*types.Vote // real votes of the current height known to some node
 	AdvProposer bool // the attacker's validator is the proposer of (H,R)
+	cache   map[string]Msg
 }
 
 func snapshot(e *Env) *live {
@@ -244,6 +245,21 @@ func marshal(pb proto.Message) (out []byte) {
 }
 
 func (l *live) validMsg(kind string, h uint64, r uint32) (Msg, bool) {
+	key := fmt.Sprintf("%s/%d/%d", kind, h, r)
+	if m, ok := l.cache[key]; ok {
+		return m, true
+	}
+	m0, ok := l.validMsg0(kind, h, r)
+	if ok {
+		if l.cache == nil {
+			l.cache = map[string]Msg{}
+		}
+		l.cache[key] = m0
+	}
+	return m0, ok
+}
+
+func (l *live) validMsg0(kind string, h uint64, r uint32) (Msg, bool) {
 	m := l.valid(kind, h, r)
 	pb := toPB(m)
 	if pb == nil {
